@@ -104,6 +104,33 @@ func text(conv string, id string, form string) string {
 	panic("form " + form)
 }
 
+// bigOf is the concretisation table of the unit / magnitude classes of the specification
+func bigOf(name string) *big.Int {
+	p := func(base, exp int64) *big.Int { return new(big.Int).Exp(big.NewInt(base), big.NewInt(exp), nil) }
+	switch name {
+	case "1":
+		return big.NewInt(1)
+	case "10^18":
+		return p(10, 18)
+	case "real": // three entries of this size add up to the real genesis supply of about 2*10^25 (and it is not a round number)
+		v, _ := new(big.Int).SetString("6666666666666666666666667", 10)
+		return v
+	case "2^32":
+		return p(2, 32)
+	case "2^63":
+		return p(2, 63)
+	case "2^64":
+		return p(2, 64)
+	case "2^64-1":
+		return new(big.Int).Sub(p(2, 64), big.NewInt(1))
+	case "2^64+1":
+		return new(big.Int).Add(p(2, 64), big.NewInt(1))
+	case "3*2^64":
+		return new(big.Int).Mul(big.NewInt(3), p(2, 64))
+	}
+	panic("unit/magnitude class " + name)
+}
+
 type jsonDeleg struct {
 	Address string `json:"address"`
 	Value   string `json:"value"`
@@ -130,7 +157,7 @@ func class(err error) string {
 		{genesis.ErrInvalidBalance, "InvalidBalance"}, {genesis.ErrInvalidStakingBalance, "InvalidStakingBalance"},
 		{genesis.ErrInvalidDelegationValue, "InvalidDelegationValue"}, {genesis.ErrSupplyMismatch, "SupplyMismatch"},
 		{genesis.ErrDuplicateAddress, "DuplicateAddress"}, {genesis.ErrEntireSupplyMismatch, "EntireSupplyMismatch"},
-		{genesis.ErrInvalidPubKey, "InvalidPubKey"},
+		{genesis.ErrInvalidPubKey, "InvalidPubKey"}, {genesis.ErrInvalidEntireSupply, "InvalidEntireSupply"},
 	} {
 		if errors.Is(err, c.e) {
 			return c.n
@@ -160,21 +187,31 @@ func replay(path, scratch string) {
 
 	nviol := map[string]int{}
 	distinct := vtrace.NewDistinct()
-	accepted, drift, notRequired, dupCases := 0, 0, 0, 0
+	accepted, drift, notRequired, dupCases, bigCases := 0, 0, 0, 0, 0
 	for bi, b := range bs {
 		st := b[len(b)-1]
 		conv := vtrace.Str(st.In["conv"])
 		total := vtrace.Int(st.In["total"])
 		var list []jsonEntry
 		es, _ := st.In["es"].([]interface{})
-		for _, x := range es {
+		// big numbers: the symbolic amounts are written with the unit U and every mismatch with the magnitude M of the case
+		// (see Genesis.tla): balance = b*U ..., supply = (b+k+d)*U + delta*M, total = sum of the written supplies + toff*M
+		unitName, magName := vtrace.Str(st.In["unit"]), vtrace.Str(st.In["mag"])
+		unitV, magV := bigOf(unitName), bigOf(magName)
+		deltas := vtrace.Ints(st.In["deltas"])
+		mul := func(a int, x *big.Int) *big.Int { return new(big.Int).Mul(big.NewInt(int64(a)), x) }
+		totalC := mul(vtrace.Int(st.In["toff"]), magV)
+		for i, x := range es {
 			e := x.(map[string]interface{})
+			b, k, d := vtrace.Int(e["b"]), vtrace.Int(e["k"]), vtrace.Int(e["d"])
+			supply := new(big.Int).Add(mul(b+k+d, unitV), mul(deltas[i], magV))
+			totalC.Add(totalC, supply)
 			je := jsonEntry{
 				Address:      text(conv, vtrace.Str(e["addr"]), vtrace.Str(e["form"])),
-				Supply:       fmt.Sprint(vtrace.Int(e["s"])),
-				Balance:      fmt.Sprint(vtrace.Int(e["b"])),
-				StakingValue: fmt.Sprint(vtrace.Int(e["k"])),
-				Delegation:   jsonDeleg{Value: fmt.Sprint(vtrace.Int(e["d"]))},
+				Supply:       supply.String(),
+				Balance:      mul(b, unitV).String(),
+				StakingValue: mul(k, unitV).String(),
+				Delegation:   jsonDeleg{Value: mul(d, unitV).String()},
 			}
 			switch vtrace.Str(e["da"]) {
 			case "ok":
@@ -195,7 +232,11 @@ func replay(path, scratch string) {
 			vtrace.Broken(err.Error())
 			return
 		}
-		ap, perr := parsing.NewAccountsParser(file, big.NewInt(int64(total)), convs[conv], keyGen)
+		plain := unitName == "1" && magName == "1"
+		if plain && totalC.Cmp(big.NewInt(int64(total))) != 0 {
+			panic(fmt.Sprintf("concretisation: total %s, specification %d", totalC, total))
+		}
+		ap, perr := parsing.NewAccountsParser(file, totalC, convs[conv], keyGen)
 		realAccept := perr == nil
 		if realAccept && len(ap.InitialAccounts()) != len(list) {
 			perr = fmt.Errorf("accepted, but %d of %d entries are reported", len(ap.InitialAccounts()), len(list))
@@ -213,14 +254,20 @@ func replay(path, scratch string) {
 		if strings.HasPrefix(why, "duplicate-address/") {
 			dupCases++
 		}
+		if !plain {
+			bigCases++
+		}
 		if realAccept && !required {
 			sig := "C47/accepted/" + why
+			if magName != "1" {
+				sig += "/mismatch-of-magnitude-" + magName
+			}
 			nviol[sig]++
 			if nviol[sig] <= 1 {
-				vtrace.Violation(prop, sig, fmt.Sprintf("NewAccountsParser (%s converter, total supply %d) ACCEPTS a genesis file that violates "+
-					"C47 (%s): %s", conv, total, why, string(raw)), M{"case": st, "file": string(raw)})
+				vtrace.Violation(prop, sig, fmt.Sprintf("NewAccountsParser (%s converter, total supply %s) ACCEPTS a genesis file that violates "+
+					"C47 (%s): %s", conv, totalC.String(), why, string(raw)), M{"case": st, "file": string(raw)})
 			}
-		} else if got != vtrace.Str(st.Out["err"]) {
+		} else if (plain && got != vtrace.Str(st.Out["err"])) || realAccept != st.Out["accept"].(bool) {
 			drift++
 			if drift == 1 {
 				vtrace.Drift(prop, fmt.Sprintf("parser answers %q, the model of the code predicted %q for %s", got, vtrace.Str(st.Out["err"]), string(raw)),
@@ -242,6 +289,7 @@ func replay(path, scratch string) {
 	vtrace.Stat("not_required", notRequired)
 	vtrace.Stat("distinct_not_required", distinct.Len())
 	vtrace.Stat("duplicate_address_cases", dupCases)
+	vtrace.Stat("big_number_cases", bigCases)
 	vtrace.Stat("violating_cases", nv)
 	vtrace.Stat("drift_cases", drift)
 }
